@@ -1582,6 +1582,41 @@ func runScenario(seed int64, n int, out *bufio.Writer, kind string, suffix strin
 		}
 		nev = r.Intn(2)
 	}
+	if n%16 == 13 && len(h.targets) >= 2 {
+		// scripted (atomic and crash histories alike: exactly one change is pending when the refusal is due, so the twin
+		// meets it at the same request): a change on every target, refused by the device of ONE of them; then a second
+		// change on all targets.  The refusal fails that change only: the other targets apply it, and every target takes
+		// the second change.
+		for _, t := range h.targets {
+			if len(h.connsOf(t)) == 0 {
+				h.connUp(t)
+			}
+		}
+		h.settle(30, 0)
+		refusals := []codes.Code{codes.InvalidArgument, codes.Internal, codes.NotFound, codes.Unknown, codes.AlreadyExists, codes.FailedPrecondition,
+			codes.Unimplemented, codes.OutOfRange}
+		bad := env.Pick(r, h.targets)
+		h.policy[bad] = append(h.policy[bad], env.Pick(r, refusals))
+		h.emit("(devpolicy)", fmt.Sprintf("%s:refusal:1", tnum(bad)))
+		ops := []op{}
+		for _, t := range h.targets {
+			ops = append(ops, op{target: t, path: env.Pick(r, paths), val: fmt.Sprintf("v%d", r.Intn(1000))})
+		}
+		h.nbSet(ops, r.Intn(2) == 0, false)
+		// the second change is submitted either at once (it queues behind the first on every target: its proposals are
+		// being linked while the first is applied) or after the first has run its course
+		early := r.Intn(2) == 0
+		if !early {
+			h.randomSteps(30+h.r.Intn(30), crashProb)
+			h.settle(40, crashProb)
+		}
+		ops = []op{}
+		for _, t := range h.targets {
+			ops = append(ops, op{target: t, path: env.Pick(r, paths), val: fmt.Sprintf("v%d", r.Intn(1000))})
+		}
+		h.nbSet(ops, r.Intn(2) == 0, false)
+		nev = r.Intn(2)
+	}
 	for ev := 0; ev < nev; ev++ {
 		switch k := r.Intn(20); {
 		case k < 9:
